@@ -68,6 +68,8 @@ structure Net where
   knownCfg : List (List Nat) := []       -- the programs of the Supervisor configuration files (what a restart reads again)
   truth : List (List Truth) := []
   data : List (List Supv.Proc.Proc) := []
+  /-- the instances whose listener guard caught an exception of the process-status synthesis during the current action -/
+  raised : List Nat := []
   /-- GHOST: `fate` of the last report, keyed by (sender, receiver, program); `sinceSnap` holds (receiver, sender, program)
       when the sender reported about the program after the receiver last read its process table -/
   fate : List ((Nat × Nat × Nat) × Fate) := []
@@ -233,7 +235,16 @@ def Net.applyEvent (g : Net) (now j src p : Nat) (st : Supv.Proc.PState) (ex : B
   let v := g.view j src
   let x := g.proc j p
   if (v == .checked || v == .running) && (x.infos.get? src).isSome then
-    (g.setProc j p (resOr (Supv.Proc.updateInfo x src st ex et none now) x)).setFate src j p .delivered
+    match Supv.Proc.updateInfo x src st ex et none now with
+    | .ok y => (g.setProc j p y).setFate src j p .delivered
+    | .err _ =>
+      -- `update_status` raised (an instance listed as running has no entry any more: known finding C11:remove-entry-not-stopped):
+      -- the entry, the forced state and the listing are already written, the synthetic state is not; the guard of the listener
+      -- logs the traceback
+      let p1 : Supv.Proc.Proc := { x with infos := x.infos.set src { state := st, expected := ex, ltime := now, etime := et, nowm := et,
+                                                                       disabled := ((x.infos.get? src).map (·.disabled)).getD false } }
+      let p2 := Supv.Proc.resetForced p1 none
+      { (g.setProc j p { p2 with running := Supv.Proc.updRunning p2 src st }).setFate src j p .delivered with raised := g.raised ++ [j] }
   else if v == .checked || v == .running then g.setFate src j p .noInfo
   else g.setFate src j p (.refused v)
 
@@ -275,6 +286,8 @@ def Net.deliver (g : Net) (now : Nat) (j : Nat) : Net × Obs :=
 def Net.procEvent (g : Net) (now i p : Nat) (st : Supv.Proc.PState) (ex : Bool) : Net × Obs :=
   let g := { g with truth := g.truth.set i ((g.truth.getD i []).set p { state := st, expected := ex, etime := now }) }
   let g := g.applyEvent now i i p st ex now
+  -- `on_process_state`: an exception in the local handling is caught by the guard BEFORE the event is published
+  if g.raised.contains i then (g, [(i, none, [])]) else
   -- GHOST (the local instance reads its own process table through a handshake with itself as well)
   let g := { g with sinceSnap := if g.sinceSnap.contains (i, i, p) then g.sinceSnap else g.sinceSnap ++ [(i, i, p)] }
   let g := (List.range g.n).foldl (fun g j => if j = i then g else
@@ -356,6 +369,7 @@ inductive Act where
   deriving Repr
 
 def Net.step (g : Net) (now : Nat) (a : Act) : Net × Obs :=
+  let g := { g with raised := [] }
   match a with
   | .running i => let (g', e, o) := g.handle now i .running; (g', [(i, e, o)])
   | .tick i => g.tick now i
